@@ -121,14 +121,6 @@ type c15Driver struct {
 	Build   func(w *c15World, shape, cli, target string, rng *kit.RNG) *c15Call
 }
 
-func c15Text(m gproto.Message) string {
-	s := fmt.Sprint(m)
-	if len(s) > 300 {
-		s = s[:300] + "…"
-	}
-	return s
-}
-
 func c15LiveTargets(string) []string { return c15Live }
 
 func (w *c15World) unaryRun(method, cli string, req gproto.Message, timeout time.Duration) func(r *c15Res) {
@@ -139,16 +131,6 @@ func (w *c15World) pausePrep(stream string, parts []int32, resumeAll bool) func(
 	return func() error {
 		return w.adminCall("PauseStream", &client.PauseStreamRequest{Name: stream, Partitions: parts, ResumeAll: resumeAll})
 	}
-}
-
-func (w *c15World) openStandingOn(stream string, part int32) int64 {
-	var n int64
-	for _, sb := range w.standing {
-		if sb.stream == stream && sb.part == part && !sb.st.closed() {
-			n++
-		}
-	}
-	return n
 }
 
 // subscribeSettle waits until the only subscription loops left on the
@@ -180,7 +162,7 @@ var c15Drivers = map[string]*c15Driver{
 			}
 			req := &client.CreateStreamRequest{Name: t, Subject: c15Subject(t), Partitions: parts, ReplicationFactor: 1}
 			return &c15Call{Need: [][2]string{{t, "CreateStream"}}, Req: c15Text(req),
-				run: w.unaryRun("CreateStream", cli, req, 15*time.Second),
+				run: w.unaryRun("CreateStream", cli, req, c15Call45),
 				worked: func(r *c15Res, d0, d1 c15Digest) string {
 					if r.err != nil {
 						return r.err.Error()
@@ -203,7 +185,7 @@ var c15Drivers = map[string]*c15Driver{
 		Build: func(w *c15World, shape, cli, t string, rng *kit.RNG) *c15Call {
 			req := &client.DeleteStreamRequest{Name: t}
 			return &c15Call{Need: [][2]string{{t, "DeleteStream"}}, Req: c15Text(req),
-				run: w.unaryRun("DeleteStream", cli, req, 15*time.Second),
+				run: w.unaryRun("DeleteStream", cli, req, c15Call45),
 				worked: func(r *c15Res, d0, d1 c15Digest) string {
 					if r.err != nil {
 						return r.err.Error()
@@ -229,7 +211,7 @@ var c15Drivers = map[string]*c15Driver{
 				req.ResumeAll = true
 			}
 			return &c15Call{Need: [][2]string{{t, "PauseStream"}}, Req: c15Text(req),
-				run: w.unaryRun("PauseStream", cli, req, 15*time.Second),
+				run: w.unaryRun("PauseStream", cli, req, c15Call45),
 				worked: func(r *c15Res, d0, d1 c15Digest) string {
 					if r.err != nil {
 						return r.err.Error()
@@ -263,7 +245,7 @@ var c15Drivers = map[string]*c15Driver{
 				}
 			}
 			return &c15Call{Need: [][2]string{{t, "SetStreamReadonly"}}, Req: c15Text(req), prep: prep,
-				run: w.unaryRun("SetStreamReadonly", cli, req, 15*time.Second),
+				run: w.unaryRun("SetStreamReadonly", cli, req, c15Call45),
 				worked: func(r *c15Res, d0, d1 c15Digest) string {
 					if r.err != nil {
 						return r.err.Error()
@@ -370,7 +352,7 @@ var c15Drivers = map[string]*c15Driver{
 				req.Groups = []string{c15MetaGrp}
 			}
 			return &c15Call{Need: [][2]string{{"*", "FetchMetadata"}}, Req: c15Text(req),
-				run: w.unaryRun("FetchMetadata", cli, req, 15*time.Second),
+				run: w.unaryRun("FetchMetadata", cli, req, c15Call45),
 				worked: func(r *c15Res, d0, d1 c15Digest) string {
 					if r.err != nil {
 						return r.err.Error()
@@ -388,7 +370,7 @@ var c15Drivers = map[string]*c15Driver{
 		Build: func(w *c15World, shape, cli, t string, rng *kit.RNG) *c15Call {
 			req := &client.FetchPartitionMetadataRequest{Stream: t, Partition: 1}
 			return &c15Call{Need: [][2]string{{t, "FetchPartitionMetadata"}}, Req: c15Text(req),
-				run: w.unaryRun("FetchPartitionMetadata", cli, req, 15*time.Second),
+				run: w.unaryRun("FetchPartitionMetadata", cli, req, c15Call45),
 				worked: func(r *c15Res, d0, d1 c15Digest) string {
 					if r.err != nil {
 						return r.err.Error()
@@ -411,7 +393,7 @@ var c15Drivers = map[string]*c15Driver{
 		},
 		Build: func(w *c15World, shape, cli, t string, rng *kit.RNG) *c15Call {
 			req := &client.PublishRequest{Stream: t, Value: []byte("payload-" + cli), AckPolicy: client.AckPolicy_LEADER, Partition: int32(rng.Intn(2))}
-			timeout := 10 * time.Second
+			timeout := c15Wait
 			var prep func() error
 			switch shape {
 			case "paused":
@@ -525,7 +507,7 @@ var c15Drivers = map[string]*c15Driver{
 		Targets: c15LiveTargets,
 		Build: func(w *c15World, shape, cli, t string, rng *kit.RNG) *c15Call {
 			req := &client.PublishToSubjectRequest{Subject: c15Subject(t), Value: []byte("pts-" + cli), AckPolicy: client.AckPolicy_LEADER}
-			timeout := 10 * time.Second
+			timeout := c15Wait
 			part := int32(0)
 			switch shape {
 			case "no-ack-no-deadline":
@@ -563,7 +545,7 @@ var c15Drivers = map[string]*c15Driver{
 			key := fmt.Sprintf("%s,%s,%d", id, t, 0)
 			cp := int32(hasher([]byte(key)) % uint32(w.nCurParts))
 			return &c15Call{Need: [][2]string{{t, "SetCursor"}, {c15CurStr, "Publish"}}, Req: c15Text(req), delta: map[string]int64{c15PartKey(c15CurStr, cp): 1},
-				run: w.unaryRun("SetCursor", cli, req, 15*time.Second),
+				run: w.unaryRun("SetCursor", cli, req, c15Call45),
 				worked: func(r *c15Res, d0, d1 c15Digest) string {
 					if r.err != nil {
 						return r.err.Error()
@@ -582,7 +564,7 @@ var c15Drivers = map[string]*c15Driver{
 			req := &client.FetchCursorRequest{Stream: t, Partition: 0, CursorId: "cur0"}
 			key := fmt.Sprintf("cur0,%s,0", t)
 			return &c15Call{Need: [][2]string{{t, "FetchCursor"}}, Extra: [][2]string{{c15CurStr, "Subscribe"}, {c15CurStr, "Publish"}}, Req: c15Text(req),
-				run: w.unaryRun("FetchCursor", cli, req, 15*time.Second),
+				run: w.unaryRun("FetchCursor", cli, req, c15Call45),
 				worked: func(r *c15Res, d0, d1 c15Digest) string {
 					if r.err != nil {
 						return r.err.Error()
@@ -605,7 +587,7 @@ var c15Drivers = map[string]*c15Driver{
 				req.Streams = []string{"s1"}
 			}
 			return &c15Call{GroupRPC: true, Target: req.GroupId, Req: c15Text(req),
-				run: w.unaryRun("JoinConsumerGroup", cli, req, 15*time.Second),
+				run: w.unaryRun("JoinConsumerGroup", cli, req, c15Call45),
 				worked: func(r *c15Res, d0, d1 c15Digest) string {
 					if r.err != nil {
 						return r.err.Error()
@@ -623,7 +605,7 @@ var c15Drivers = map[string]*c15Driver{
 		Build: func(w *c15World, shape, cli, t string, rng *kit.RNG) *c15Call {
 			req := &client.LeaveConsumerGroupRequest{GroupId: c15MetaGrp, ConsumerId: "m2"}
 			return &c15Call{GroupRPC: true, Req: c15Text(req),
-				run: w.unaryRun("LeaveConsumerGroup", cli, req, 15*time.Second),
+				run: w.unaryRun("LeaveConsumerGroup", cli, req, c15Call45),
 				worked: func(r *c15Res, d0, d1 c15Digest) string {
 					if r.err != nil {
 						return r.err.Error()
@@ -645,7 +627,7 @@ var c15Drivers = map[string]*c15Driver{
 					if g := w.srv.metadata.GetConsumerGroup(c15MetaGrp); g != nil {
 						_, req.Epoch = g.GetCoordinator()
 					}
-					r.resp, r.err = w.call("FetchConsumerGroupAssignments", cli, req, 15*time.Second)
+					r.resp, r.err = w.call("FetchConsumerGroupAssignments", cli, req, c15Call45)
 				},
 				worked: func(r *c15Res, d0, d1 c15Digest) string {
 					if r.err != nil {
@@ -665,7 +647,7 @@ var c15Drivers = map[string]*c15Driver{
 					if g := w.srv.metadata.GetConsumerGroup(c15MetaGrp); g != nil {
 						req.Coordinator, req.Epoch = g.GetCoordinator()
 					}
-					r.resp, r.err = w.call("ReportConsumerGroupCoordinator", cli, req, 15*time.Second)
+					r.resp, r.err = w.call("ReportConsumerGroupCoordinator", cli, req, c15Call45)
 				},
 				worked: func(r *c15Res, d0, d1 c15Digest) string {
 					if r.err != nil {
@@ -764,14 +746,6 @@ func (w *c15World) genCalls(methods []string, rng *kit.RNG) []*c15Call {
 	return out
 }
 
-func c15AuthzError(err error) bool {
-	if err == nil {
-		return false
-	}
-	s := err.Error()
-	return strings.Contains(s, "not authorized") || strings.Contains(s, "Failed to retrieve client ID") || strings.Contains(s, "PERMISSION_DENIED")
-}
-
 // exec runs one call under the oracle.
 func (w *c15World) exec(set int, call *c15Call) {
 	rep := w.rep
@@ -789,6 +763,10 @@ func (w *c15World) exec(set int, call *c15Call) {
 			rep.Inconc(tag + ": standing subscriptions: " + err.Error())
 			return
 		}
+	}
+	if !w.quiesce() {
+		rep.Inconc(tag + ": subscription loops ended by the preparation did not wind down")
+		return
 	}
 	dec := call.decide(w.pol)
 	delta := call.expectedDelta(w.pol, dec)
@@ -992,7 +970,7 @@ func TestVerifC15ACL(t *testing.T) {
 	rep.SetRule("Policy sets are generated from the seed: admin holds every line, 'stranger' none, c1..c3 each an independent random subset (density 1/4, 1/2 or 3/4) of {11 documented actions} x {3 live streams, their subjects, 2 deletable and 2 creatable stream names, '*', __cursors, a group id}. For every method of client.APIServer (listed by reflection; a method without a driver fails the run) and every request shape one denied and one allowed case (plus some undetermined ones) are chosen among clients x targets and executed in seeded order on one server; each policy set after the first is installed by rewriting the file and a real SIGHUP. A case is non-trivial when its decision is determined by the documented contract and the shape's precondition (paused partition, existing group subscriber, stored cursor, existing member) was established; signature = method/shape/decision.")
 	c15Assumptions(rep)
 	methods := c15CheckMethodCoverage(rep)
-	sets := kit.Scale(40, 360)
+	sets := kit.Scale(96, 720)
 	sets = kit.EnvInt("C15_SETS", sets)
 	base := kit.NewRNG(kit.Mix(kit.Seed(), 0xc15a))
 	var w *c15World
@@ -1057,7 +1035,7 @@ func TestVerifC15Reload(t *testing.T) {
 	rep.SetRule("Each round generates a new policy set from the seed, rewrites the policy file and delivers a real SIGHUP while two goroutines keep calling read-only RPCs whose decision is the same under the old and the new set. After the enforcer answers with the new generation marker, FetchPartitionMetadata for every client x live stream and FetchMetadata for every client must be decided by the NEW set, and a few seeded full cases (state digest oracle) are run. A probe is non-trivial when its decision differs between the old and the new set; signature = probe/old→new.")
 	c15Assumptions(rep)
 	methods := c15CheckMethodCoverage(rep)
-	rounds := kit.EnvInt("C15_ROUNDS", kit.Scale(60, 600))
+	rounds := kit.EnvInt("C15_ROUNDS", kit.Scale(100, 1000))
 	base := kit.NewRNG(kit.Mix(kit.Seed(), 0xc15b))
 	pol := c15GenPolicy(base.Fork(0), 0)
 	w, err := c15NewWorld(rep, "rl", pol)
@@ -1106,7 +1084,7 @@ func TestVerifC15Reload(t *testing.T) {
 					default:
 					}
 					p := stable[i%len(stable)]
-					_, err := w.call(p.method, p.cli, p.req, 10*time.Second)
+					_, err := w.call(p.method, p.cli, p.req, c15Wait)
 					atomic.AddInt64(&during, 1)
 					want := old.has(p.cli, p.obj, p.method)
 					if (err == nil) != want && (err == nil || c15AuthzError(err)) {
@@ -1132,7 +1110,7 @@ func TestVerifC15Reload(t *testing.T) {
 		}
 		rep.Count("policy_reloads_by_sighup", 1)
 		for _, p := range probes {
-			_, err := w.call(p.method, p.cli, p.req, 10*time.Second)
+			_, err := w.call(p.method, p.cli, p.req, c15Wait)
 			was, now := old.has(p.cli, p.obj, p.method), next.has(p.cli, p.obj, p.method)
 			rep.Eval()
 			if err != nil && !c15AuthzError(err) {
